@@ -120,7 +120,7 @@ static inline Node gen_flat_leaf(int i, bool allow_optional) {
 }
 
 // flat table: schema + rows per row group + content
-struct FlatOpts { int max_cols = 8; int max_rgs = 4; bool allow_big = true; bool allow_wide = true; bool allow_optional = true; };
+struct FlatOpts { int max_cols = 8; int max_rgs = 4; bool allow_big = true; bool allow_wide = true; bool allow_optional = true; bool allow_medium = true; };
 
 static inline void fill_chunk(Chunk& ch, const Col& c, int64_t rows) {
     ch.def.clear(); ch.rep.assign((size_t)rows, 0); ch.vals.clear();
@@ -161,12 +161,14 @@ static inline Table gen_flat_table(const FlatOpts& o) {
     t.root.name = "schema"; t.root.leaf = false;
     int ncols = 1 + (int)draw((uint32_t)o.max_cols);
     if (o.allow_wide && draw(60) == 59) ncols = 70 + (int)draw(230);
+    else if (o.allow_medium && draw(12) == 11) ncols = 9 + (int)draw(12);      // 9..20: crosses the 15-element Thrift list-header switch
     for (int i = 0; i < ncols; i++) t.root.kids.push_back(gen_flat_leaf(i, o.allow_optional));
     derive_leaves(t);
     int nrg = 1 + (int)draw((uint32_t)o.max_rgs);
+    if (o.allow_medium && draw(16) == 15) nrg = 5 + (int)draw(14);                 // 5..18 row groups
     for (int g = 0; g < nrg; g++) {
         RowGroup rg;
-        rg.rows = ncols > 16 ? (int64_t)draw(20) : gen_rows(o.allow_big && ncols <= 4);
+        rg.rows = (ncols > 8 || nrg > 4) ? (int64_t)draw(20) : gen_rows(o.allow_big && ncols <= 4);
         rg.cols.resize(t.cols.size());
         for (size_t c = 0; c < t.cols.size(); c++) fill_chunk(rg.cols[c], t.cols[c], rg.rows);
         t.rgs.push_back(rg);
